@@ -613,6 +613,9 @@ func (g *gen) key() []byte {
 
 func (g *gen) val() []int {
 	g.nval++
+	if g.r.Intn(9) == 0 {
+		return []int{} // an EMPTY value is a value (present key), not a deletion
+	}
 	if g.r.Intn(6) == 0 {
 		return []int{g.nval % 251, 0, g.nval / 251}
 	}
